@@ -1,5 +1,6 @@
 import Model.Util
 import Model.Predict
+import Model.Memo
 namespace Gep.Driver.C12
 open Gep Gep.Pred Gep.Fit
 
@@ -64,6 +65,11 @@ def handle (op : String) (args : List String) : String :=
         | _ => "bad-op"
       | _ => "bad-op"
     | _ => "bad-op"
+  | "c12.memo" =>
+    -- `c12.memo <key>*`: the keys of the table left by that history of lookups on a fresh object, in
+    -- insertion order (Model/Memo.lean with the identity as value function)
+    let (_, tbl) := Gep.Memo.run (fun (k : String) => k) (fun k => k) [] args
+    " ".intercalate (tbl.map (·.1))
   | _ => "bad-op"
 
 end Gep.Driver.C12
